@@ -68,7 +68,7 @@ CLAIMED = {
        'round by round with the model.',
   ref='6/C13', technique='Lean 4 proof (grouping lemmas, case analysis over attempt outcomes) + differential correspondence vs real Queue/Bounce histories'),
  'C03': dict(
-  text='PARTIAL (part 1 over sequential histories and storage; part 2 over the stage-1 scheduler model: atomic storage calls, non-blocking spawns, calm announcements). Lean theorems over Model/Attempt.lean + Model/Store.lean: for every valid '
+  text='PARTIAL (part 1 over sequential histories and storage; part 2 over the scheduler model of C12: storage calls atomic inside a section, spawns that may wait for a slot of a bounded pool, calm announcements). Lean theorems over Model/Attempt.lean + Model/Store.lean: for every valid '
        'history of delivery attempts (any rounds, recipients, outcomes, backoff) a recipient reported delivered or permanently failed is in no '
        'later attempt; the next attempt is made for exactly the transiently refused recipients; the accumulating index representation of '
        'disk/redis/cloud agrees with the reference store over any number of marking rounds. The real Queue is driven through exhaustive '
@@ -77,9 +77,9 @@ CLAIMED = {
        '(Model/Sched.lean, tied to the real Queue by C12\'s trace replay) the attempts in flight are pairwise different messages and a message in '
        'flight has neither a timetable entry nor a pending _dequeue task (one_attempt_in_flight_per_message).',
   ref='6/C03', technique='Lean 4 proof (conservation/counting invariant over attempt histories, store refinement) + differential correspondence vs real Queue on 4 backends',
-  note='Partial: the interleaving theorem is about the stage-1 scheduler model under the Calm assumption (see C12).'),
+  note='Partial: the interleaving theorem is about the scheduler model of C12 (bounded pools included) under the Calm assumption.'),
  'C01': dict(
-  text='PARTIAL (the ledger over sequential histories; "keeps being retried" over the stage-1 scheduler model under the Calm assumption of C12; the two models are not composed into one machine; bounded pools: known finding). Lean theorems over Model/Attempt.lean: for every attempt outcome and every history each accepted recipient '
+  text='PARTIAL (the ledger over sequential histories; "keeps being retried" over the scheduler model of C12 under its Calm assumption; the two models are not composed into one machine; bounded pools: known finding). Lean theorems over Model/Attempt.lean: for every attempt outcome and every history each accepted recipient '
        'is exactly one of delivered / failed for good / still stored; the message is removed only when nobody is outstanding; when the backoff '
        'returns None everybody outstanding is failed; failed recipients of a non-null-sender message are named in a bounce (with C13). The real Queue '
        'is driven through seeded histories mixing None/Reply, mapping, sequence, Transient, Permanent and unexpected exceptions on dict, disk, redis and '
@@ -88,7 +88,7 @@ CLAIMED = {
        'knows is being handed off, in flight, finishing, dequeuing, or in the timetable with the loop due to wake by its time; a due entry enables the '
        'scheduler turn that dispatches it.',
   ref='6/C01', technique='Lean 4 proof (ledger conservation by counting, induction over histories) + differential correspondence vs real Queue on 4 backends',
-  note='Partial: ledger and scheduler are two models tied to the same code, not one composed machine; stage 1 (atomic storage calls, non-blocking spawns); Calm assumption.'),
+  note='Partial: ledger and scheduler are two models tied to the same code, not one composed machine; storage calls atomic inside a section; Calm assumption; pool-exhaustion stall is a known finding.'),
  'C04': dict(
   text='PARTIAL (process death; POSIX rename/unlink atomicity and pickle integrity assumed). Lean theorems over Model/DiskFS.lean (every DiskStorage '
        'operation = a list of atomic file-system effects: temp-file creation, chunk writes, rename, unlink; the process may die after any prefix): '
@@ -166,22 +166,21 @@ CLAIMED = {
   ref='6/C19', technique='Lean 4 proof (inductive invariant of the pool transition system over all interleavings; BlockingDeque invariant) + trace-replay correspondence vs real RelayPool/SmtpRelayClient/HttpRelayClient',
   note='Partial: termination assumes finitely many idle-timer and connection-fault events; per-connection protocol discipline is monitored, not proved.'),
  'C12': dict(
-  text='PARTIAL (storage calls are atomic inside a section except inside _retry_later, which is modelled in two steps around its yielding storage calls; pool spawns do not block — bounded pools are tied by the '
-       'correspondence with a lenient scheduler label and by the monitors only; environment assumption Calm: the storage does not announce a '
+  text='PARTIAL (storage calls are atomic inside a section except inside _retry_later, which is modelled in two steps around its yielding storage calls; bounded pools are inside the model for the safety statements: a spawn that waits for a pool slot is a task that stays pending longer, and the scheduler loop, the one section such a wait splits, is two labels (sched = wake up + _check_ready, sleep = _wait_ready) with everything else allowed in between; that flush() waits for the lock while the loop is held up in a spawn, and the pool-exhaustion stall (known finding of C01), are outside; environment assumption Calm: the storage does not announce a '
        'message while enqueue() is between the write and the hand-off of that message or while a _dequeue task for it is pending — without it '
        'the property is false of model and code: theorem never_early_needs_calm, known finding). Lean theorems over Model/Sched.lean for every '
-       'interleaving of {enqueue write / hand-off, announce (load, wait), tick, scheduler turn (asked for or spurious), _dequeue, relay outcome, '
-       '_retry_later in two steps (due time stored / message released) with any backoff answer incl. 0 and None, stale announcements of known messages, _remove_stored, flush}: one inductive invariant (16 clauses: id sets = ids of the '
+       'interleaving of {enqueue write / hand-off, announce (load, wait), tick, scheduler turn in two steps (sched / sleep), _dequeue, relay outcome, '
+       '_retry_later in two steps (due time stored / message released) with any backoff answer incl. 0 and None, stale announcements of known messages, _remove_stored, flush in two steps (poke = wake.set/clear, flush = the cut under the lock)}: one inductive invariant (16 clauses: id sets = ids of the '
        'timetable, entries carry the stored timestamp, active ids have neither entry nor task, timetable sorted, scheduler timer at or before '
        'every entry unless flagged, ...) gives never_early (no hand-off that no flush asked for before the stored due time), due_is_dispatched '
-       '(a due entry enables the scheduler turn, which creates its _dequeue task), never_forgotten (every known stored message is being handed '
+       '(a due entry enables the scheduler turn, which creates its _dequeue task; a loop in the middle of a turn finishes it without going to sleep), never_forgotten (every known stored message is being handed '
        'off, in flight, finishing, dequeuing, or in the timetable with the loop due to wake by then), flush_returns_and_dispatches (flush is one '
        'always-enabled step; every waiting message gets a task; id set emptied), timetable_ids_exact, one_attempt_in_flight. Tied to the code by '
        'replaying, label by label, traces of the real Queue (scheduler started, DictStorage, virtual clock, held relay outcomes, wait() fed by '
        'the harness, holds on store.get / store.write) through the model: every label enabled; now, timetable, id sets, stored timestamps, wake '
-       'flag and scheduler timer equal at every observation point.',
+       'flag and scheduler timer equal at every observation point, with unbounded and with bounded store/relay pools (spawns held up on a full pool included).',
   ref='6/C12', technique='Lean 4 proof (inductive invariant of the scheduler transition system over all interleavings, virtual time) + trace-replay correspondence vs real slimta.queue.Queue under a virtual clock',
-  note='Partial: atomic-store / non-blocking-spawn stage; Calm environment assumption (negation witnessed, known finding).'),
+  note='Partial: storage calls atomic inside a section (except _retry_later); Calm environment assumption (negation witnessed, known finding); flush waiting for the lock under saturated pools not modelled.'),
  'C02': dict(
   text='Lean theorems over Model/Edge.lean (SmtpSession.HAVE_DATA reply choice, WsgiEdge._enqueue_envelope + _build_http_response, '
        'Queue.enqueue result construction, ProxyQueue.enqueue), for every list of enqueue results and every vector of write outcomes / relay '
